@@ -1007,23 +1007,40 @@ func skipTableRule(c *core.Ctx, g skipGroup) {
 // an entry whose function name starts with "+" is anchored together with what it calls (small model and queue
 // functions); the others are anchored alone (functions that wire everything together)
 var anchorTable = map[string][][2]string{
-	"C08": {{"controller/config", "CreateWithConfig"}, {"controller/config", "Options.AddFlags"}},
-	"C09": {{"controller/config", "CreateWithConfig"}, {"controller/config", "Options.AddFlags"}},
+	"C08": {{"controller/config", "CreateWithConfig"}, {"controller/config", "Options.AddFlags"}, {"controller/services", "createCacheFacade"}, {"controller/legacy", "createCache"}, {"converters/tracker", "NewTracker"}},
+	"C09": {{"controller/config", "CreateWithConfig"}, {"controller/config", "Options.AddFlags"}, {"controller/services", "createCacheFacade"}, {"controller/legacy", "createCache"}},
 	"C12": {{"controller/config", "CreateWithConfig"}, {"controller/config", "Options.AddFlags"}, {"controller/services", "Services.withManager"}, {"utils/workqueue", "+WorkQueue.Start"}, {"haproxy/socket", "+buildProcTable"}, {"haproxy/socket", "+buildProcTable24"}, {"haproxy", "CreateInstance"}, {"haproxy", "newConnections"}, {"haproxy/socket", "+tokenizer.readField"}},
-	"C14": {{"controller/reconciler", "+hdlr.Generic"}, {"controller/reconciler", "+hdlr.Create"}, {"controller/reconciler", "+hdlr.Update"}, {"controller/reconciler", "+hdlr.Delete"}},
+	"C14": {{"controller/reconciler", "watchers.getHandlers"}, {"controller/reconciler", "hdlr.getSource"}, {"controller/reconciler", "createWatchers"}, {"controller/reconciler", "IngressReconciler.SetupWithManager"}, {"controller/reconciler", "+hdlr.Generic"}, {"controller/reconciler", "+hdlr.Create"}, {"controller/reconciler", "+hdlr.Update"}, {"controller/reconciler", "+hdlr.Delete"}},
 	"C13": {{"controller/config", "CreateWithConfig"}, {"controller/config", "Options.AddFlags"}, {"utils/workqueue", "New"}, {"controller/services", "Services.withManager"},
 		{"utils", "+queue.RunWithContext"}, {"utils", "+queue.Add"}, {"utils", "+queue.AddAfter"}, {"utils", "+queue.Notify"}, {"utils", "+queue.Remove"}, {"utils", "+NewRateLimitingQueue"}, {"utils", "+NewFailureRateLimitingQueue"}, {"utils", "+NewQueue"}, {"utils/workqueue", "+WorkQueue.Start"}, {"utils/workqueue", "WorkQueue.AddAfter"}, {"utils/workqueue", "WorkQueue.Remove"}, {"controller/services", "+svcLeader.onStartedLeading"}, {"controller/services", "+svcLeader.onStoppedLeading"}, {"controller/services", "svcLeader.addRunnable"}, {"controller/services", "svcLeader.Start"}, {"utils/workqueue", "ingressReconciler.Forget"}, {"utils/workqueue", "ingressReconciler.NumRequeues"}, {"utils/workqueue", "reloadHAProxy.Forget"}, {"utils/workqueue", "reloadHAProxy.NumRequeues"}},
 	"C17": {{"controller/config", "CreateWithConfig"}, {"controller/config", "Options.AddFlags"}, {"controller/services", "Services.withManager"}, {"utils/workqueue", "+WorkQueue.Start"}, {"utils/workqueue", "WorkQueue.AddAfter"}, {"utils/workqueue", "WorkQueue.Remove"}, {"controller/services", "+svcLeader.onStartedLeading"}, {"controller/services", "+svcLeader.onStoppedLeading"}, {"controller/services", "svcLeader.addRunnable"}, {"controller/services", "svcLeader.Start"}, {"utils/workqueue", "ExponentialFailureRateLimiter"}, {"controller/services", "+svcAcmeClient.Start"}, {"controller/services", "+Services.acmeCheck"}, {"controller/services", "initSvcAcmeClient"}, {"controller/services", "initSvcLeader"}, {"acme", "NewSigner"}, {"acme", "NewClient"}},
 	"C19": {{"controller/config", "CreateWithConfig"}, {"controller/config", "Options.AddFlags"}},
 	"C02": {{"haproxy", "CreateInstance"}, {"haproxy", "newConnections"}},
+	"C01": {{"controller/services", "createCacheFacade"}, {"controller/legacy", "createCache"}, {"converters/tracker", "NewTracker"}},
+	"C15": {{"controller/services", "createCacheFacade"}, {"controller/legacy", "createCache"}, {"controller/services", "+SSL.createFakeCertAndCA"}},
 	"C03": {{"controller/config", "CreateWithConfig"}},
 	"C11": {{"controller/config", "CreateWithConfig"}, {"converters/ingress/annotations", "updater.buildBackendDynamic"}},
 	"C07": {{"converters/ingress/annotations", "updater.buildGlobalPathTypeOrder"}},
 	"C04": {{"converters/ingress/annotations", "updater.buildGlobalPathTypeOrder"}, {"converters/ingress", "converter.addHeaderMatch"}, {"haproxy/types", "+PathLink.AddHeadersMatch"}, {"haproxy/types", "+PathLink.WithHeadersMatch"}, {"haproxy/types", "+PathLink.WithHostname"}, {"haproxy/types", "+CreatePathLink"}, {"haproxy/types", "+CreateHostPathLink"}, {"haproxy/types", "+PathLink.Equals"}, {"haproxy/types", "+PathLink.Key"}},
-	"C10": {{"controller/config", "CreateWithConfig"}},
+	"C10": {{"controller/config", "CreateWithConfig"}, {"controller/reconciler", "watchers.getHandlers"}},
 }
 
 func init() {
+	// the anchors of a layer's home property are anchors of the properties downstream of the layer
+	// (zzz_shared.go: an event that reaches no batch, a file that is not rewritten …)
+	for _, ls := range layerShares {
+		for _, to := range ls.to {
+			for _, a := range anchorTable[ls.from] {
+				dup := false
+				for _, b := range anchorTable[to] {
+					dup = dup || (b[0] == a[0] && strings.TrimPrefix(b[1], "+") == strings.TrimPrefix(a[1], "+"))
+				}
+				if !dup {
+					anchorTable[to] = append(anchorTable[to], a)
+				}
+			}
+		}
+	}
 	for _, p := range sortedKeys(anchorTable) {
 		p := p
 		addRule(p, &core.Rule{ID: p + ".anchors", Floor: 1, Run: func(c *core.Ctx) {
